@@ -43,4 +43,16 @@ TABLE = {
     'C06': {'technique': TLC,
             'text': 'KzWriter.tla/KzReader.tla are model-checked and replayed with every mix of Write/Read buffer lengths (incl. 0); real streams over all codec pairs are decoded through sources delivering 1, 7, 8, 9, 13/5/64, random ... bytes per call with random Read buffer sizes, and compressed through random Write partitions; Trace_Reader.tla/Trace_Writer.tla require the digests of the plain run. The bit-level refill logic is model-checked in KzBitIn.tla (C14).',
             'note': READER_NOTE},
+    'C01': {'technique': TLC + '; codec layer explored by generated round trips judged by the trace spec',
+            'text': 'Stream layer decided by model checking: KzWriter.tla (every Write partition x hint class x jobs: W_CloseOK, W_Partition) and KzReader.tla on clean wires (R_CompleteAtEOF), all edges replayed on the real code. Codec layer explored: thousands of round trips through the public stream API over the ten level presets, all single transforms, random chains of 1..8 transforms x 9 entropy codecs x 19 data shapes x block sizes x jobs x checksum x hint classes x headerless x Write partitions, each judged event by event by Trace_Writer.tla (Write full length, Close nil, decoded digest = accepted digest, GetWritten = sink size); configurations at the limits of validity must be rejected by the constructor or work completely.',
+            'note': READER_NOTE + '; that every codec is an inverse pair for ALL inputs is not decided (exploration)'},
+    'C16': {'technique': TLC + ' (the function itself is transcribed into TLA+)',
+            'text': 'NormalizeFrequencies is transcribed operator by operator into KzNormFreq.tla; TLC checks ValidTable exhaustively on the enumerated families (r rare + d dominant symbols x scales; all short sequences over a count menu) for the transcription; the same families plus exact-total and random histograms (counts up to 2^26, alphabets 1..256, scales 2^8..2^16, both calling conventions) are run through the real function and TLC evaluates ValidTable on the REAL outputs (Trace_Norm.tla, the verdict) and equality with the transcription (drift report).',
+            'note': 'trusted: TLC, the harness driver; totalFreq is the true sum (as all callers pass); count*scale >= 2^31 only judged on the post-condition'},
+    'C15': {'technique': TLC,
+            'text': 'KzNames.tla (type code tables, chain packing with NONE removed, canonical names) is model-checked for all chains up to length 2 (3 in thorough); every case variant of all 28 names, all chains of length 2 (3), random chains up to 8 with NONE fillers go through the real GetType/GetName and are judged against the spec tables by Trace_Names.tla; every name and sampled chains are run end to end through Writer/Reader in lower/mixed case on data that activates the variant-specific code: the stream must be byte-identical to the canonical spelling, the header type codes (independent parser) must equal the spec codes and the stream must decode.',
+            'note': 'trusted: TLC, harness, container parser; case variants of chains of length >= 2 are sampled (one random mask per element)'},
+    'C03': {'technique': 'exploration: structure-aware mutants from the KzFormat field catalogue decoded in watchdog-guarded child processes, judged by a TLC trace spec; containment design (helper goroutines, reader liveness under faults) model-checked in TLA+',
+            'text': 'KzHelpers.tla (helper goroutines of the inverse BWT) and KzReader.tla under failures (liveness, deadlock freedom) decide the containment design; totality over all inputs is EXPLORED: base streams over random chains and all codecs, mutated field by field (header fields with recomputed header checksum, every transform/entropy code, block length fields, mode/skip/pre-transform length, first 24 bytes of codec data such as BWT primary indexes, plus random bytes, truncations, splices, garbage, and the multi-MiB inverse BWT regime), each decoded in a child process with jobs 1..8 under a watchdog; Trace_Total.tla requires normal return within the bound.',
+            'note': 'exploration level: no claim for all byte strings; hangs are confirmed by an isolated re-run before they count'},
 }
